@@ -5,6 +5,7 @@ package c17
 import (
 	"bytes"
 	"context"
+	"encoding/base64"
 	"encoding/hex"
 	"fmt"
 	"io"
@@ -43,7 +44,7 @@ type Mut struct {
 }
 
 type Op struct {
-	Kind    string `json:"kind"` // login | callback
+	Kind    string `json:"kind"` // login | callback | call
 	Browser int    `json:"browser"`
 	Tmpl    string `json:"tmpl,omitempty"` // generator template (label only)
 
@@ -58,13 +59,21 @@ type Op struct {
 
 	// callback
 	Attempt    int    `json:"attempt,omitempty"` // login attempt whose state / code the query refers to (modulo attempts so far)
-	StateQ     string `json:"state_q,omitempty"` // attempt | omit | empty | lit | prefix | suffix | case | inside | other | space
+	StateQ     string `json:"state_q,omitempty"` // attempt | omit | empty | lit | prefix | suffix | case | inside | other | space | near
 	StateLit   string `json:"state_lit,omitempty"`
 	CodeQ      string `json:"code_q,omitempty"`  // attempt | bogus | omit | other
 	ErrorQ     string `json:"error_q,omitempty"` // value of the error parameter ("" none)
 	Method     string `json:"method,omitempty"`  // GET | POST
 	Muts       []Mut  `json:"muts,omitempty"`
 	TokenExtra bool   `json:"token_extra,omitempty"` // application passes an additional token-request parameter option
+	// callback with StateQ "near": the state parameter is a near miss of the attempt's state (see nearKinds)
+	Near   string `json:"near,omitempty"`
+	NearN  int    `json:"near_n,omitempty"`  // which of the applicable positions
+	NearCh string `json:"near_ch,omitempty"` // replace-one: the replacement character
+
+	// call: another use of the SAME long-lived RelyingParty between the logins and callbacks (see callKinds)
+	Call string `json:"call,omitempty"`
+	Arg  string `json:"arg,omitempty"`
 }
 
 // KV is one request parameter.
@@ -131,7 +140,26 @@ func pick(t *rapid.T, label string, opts ...string) string {
 }
 
 func genState(t *rapid.T, label string, prev []string) string {
-	switch pick(t, label+"kind", "token", "token", "token", "odd", "odd", "reuse", "short", "unicode", "huge") {
+	switch pick(t, label+"kind", "token", "token", "token", "odd", "odd", "reuse", "short", "unicode", "huge", "sep", "sep", "b64std", "b64url", "words") {
+	case "sep":
+		// segments joined by the characters that encodings treat specially (standard base64, human readable, pre-encoded)
+		n := rapid.IntRange(2, 5).Draw(t, label+"nseg")
+		var b strings.Builder
+		for i := 0; i < n; i++ {
+			if i > 0 {
+				b.WriteString(pick(t, fmt.Sprintf("%ssep%d", label, i), "+", "+", " ", " ", "/", "-", "_", "=", "%", "%20", "%2B", "%2b", ".", "~", "\t", "  ", "++", "+ "))
+			}
+			b.WriteString(rapid.StringMatching(`[A-Za-z0-9]{1,6}`).Draw(t, fmt.Sprintf("%sseg%d", label, i)))
+		}
+		b.WriteString(pick(t, label+"pad", "", "", "", "=", "==", " ", "+"))
+		return b.String()
+	case "b64std":
+		return base64.StdEncoding.EncodeToString(genBytes(t, label+"bytes", rapid.IntRange(1, 24).Draw(t, label+"nbytes")))
+	case "b64url":
+		return base64.URLEncoding.EncodeToString(genBytes(t, label+"bytes", rapid.IntRange(1, 24).Draw(t, label+"nbytes")))
+	case "words":
+		return pick(t, label+"w1", "return to", "Zürich", "Zu\u0308rich", "tenant A", "Å", "\u212b", "İstanbul", "ﬁn", "état", "e\u0301tat", "ſtate") +
+			pick(t, label+"w2", " ", "+", "/", "", "-") + rapid.StringMatching(`[A-Za-z0-9 +]{0,8}`).Draw(t, label+"w3")
 	case "token":
 		return rapid.StringMatching(`[A-Za-z0-9_-]{8,24}`).Draw(t, label)
 	case "odd":
@@ -454,7 +482,7 @@ func genCallback(t *rapid.T, label string, browser int, latest map[int]int, nAtt
 	}
 	o.Attempt = last
 	o.Tmpl = pick(t, label+"tmpl", "match", "match", "match", "earlier", "earlier", "restore", "wrongq", "wrongq", "tamper", "tamper",
-		"mint", "mint", "cross", "cross", "drop", "error", "free", "otherbrowser")
+		"mint", "mint", "cross", "cross", "drop", "error", "free", "otherbrowser", "near", "near", "near")
 	if noFlow {
 		// no cookie of this RP exists: only what others minted can be in the jar
 		o.Tmpl = pick(t, label+"tmpl-noflow", "mint", "mint", "mint", "mint", "free", "free", "match", "error")
@@ -484,6 +512,10 @@ func genCallback(t *rapid.T, label string, browser int, latest map[int]int, nAtt
 		default:
 			o.Muts = []Mut{{Kind: "restore", Cookie: "pkce", N: anyAttempt()}}
 		}
+	case "near":
+		// everything genuine except the state parameter, which is a near miss of the state in the cookie
+		o.StateQ = "near"
+		genNear(t, label, &o)
 	case "wrongq":
 		o.StateQ = pick(t, label+"sq", "omit", "empty", "lit", "prefix", "suffix", "case", "other", "space")
 		if o.StateQ == "lit" {
@@ -544,9 +576,12 @@ func genCallback(t *rapid.T, label string, browser int, latest map[int]int, nAtt
 		o.CodeQ = pick(t, label+"cq", "omit", "attempt")
 	default: // free
 		o.Attempt = anyAttempt()
-		o.StateQ = pick(t, label+"sq", "attempt", "attempt", "omit", "empty", "lit", "prefix", "suffix", "case", "inside", "other", "space")
+		o.StateQ = pick(t, label+"sq", "attempt", "attempt", "omit", "empty", "lit", "prefix", "suffix", "case", "inside", "other", "space", "near", "near")
 		if o.StateQ == "lit" {
 			o.StateLit = rapid.StringMatching(`[A-Za-z0-9_-]{1,12}`).Draw(t, label+"slit")
+		}
+		if o.StateQ == "near" {
+			genNear(t, label, &o)
 		}
 		o.CodeQ = pick(t, label+"cq", "attempt", "attempt", "attempt", "bogus", "omit", "other")
 		nm := rapid.IntRange(0, 2).Draw(t, label+"nm")
@@ -593,12 +628,7 @@ func genCase0(t *rapid.T) Case {
 	genKeys(t, &c)
 	c.Unsecure = rapid.IntRange(0, 3).Draw(t, "unsecure") == 0
 	c.MaxAge = rapid.SampledFrom([]int{0, 0, 600}).Draw(t, "maxage")
-	c.Scopes = []string{"openid"}
-	for _, s := range []string{"profile", "email", "phone", "custom:read"} {
-		if rapid.IntRange(0, 2).Draw(t, "scope-"+s) == 0 {
-			c.Scopes = append(c.Scopes, s)
-		}
-	}
+	c.Scopes = genScopes(t)
 	c.RedirectPath = pick(t, "redirect", "/auth/callback", "/auth/callback", "/cb", "/auth/callback?tenant=t1")
 	c.CustomHandlers = rapid.IntRange(0, 3).Draw(t, "handlers") > 0
 
@@ -621,6 +651,12 @@ func genCase0(t *rapid.T) Case {
 			cb--
 		}
 	}
+	// other uses of the same long-lived RelyingParty, anywhere in the history (also before the first login)
+	nCalls := rapid.SampledFrom([]int{0, 0, 0, 1, 1, 2, 2, 3, 4}).Draw(t, "ncalls")
+	for k := 0; k < nCalls; k++ {
+		at := rapid.IntRange(0, len(kinds)).Draw(t, fmt.Sprintf("call%d-at", k))
+		kinds = append(kinds[:at], append([]string{"call"}, kinds[at:]...)...)
+	}
 	twoBrowsers := rapid.IntRange(0, 3).Draw(t, "two-browsers") == 0
 	latest := map[int]int{}
 	consumed := map[int]bool{}
@@ -631,6 +667,10 @@ func genCase0(t *rapid.T) Case {
 		b := 0
 		if twoBrowsers {
 			b = rapid.IntRange(0, 1).Draw(t, label+"browser")
+		}
+		if k == "call" {
+			c.Ops = append(c.Ops, genCall(t, label, nAttempts))
+			continue
 		}
 		if k == "login" {
 			o := Op{Kind: "login", Browser: b, State: genState(t, label+"state", prevStates)}
@@ -818,7 +858,12 @@ type world struct {
 	classes        []string
 	asserted, grey int
 	nontrivial     bool
+	calls          []string    // the other calls made on the RelyingParty so far (for messages)
+	tokens         *heldTokens // what the application holds from the latest completed login
+	probes         int
 }
+
+type heldTokens struct{ access, refresh, id string }
 
 func (w *world) jar(b int) *jar {
 	j, ok := w.jars[b]
@@ -952,8 +997,8 @@ func run(c Case) (res *vkit.Result) {
 	w.redirect = rpOrigin + c.RedirectPath
 
 	// provider
-	cl := &vkit.ClientSpec{ID: clientID, AppType: "web", AuthMethod: c.AuthMethod, GrantTypes: []string{vkit.GCode, vkit.GRefr},
-		ResponseTypes: []string{"code"}, RedirectURIs: []string{w.redirect}, AllowedScopes: []string{"custom:read"}}
+	cl := &vkit.ClientSpec{ID: clientID, AppType: "web", AuthMethod: c.AuthMethod, GrantTypes: []string{vkit.GCode, vkit.GRefr, vkit.GCC, vkit.GDevice},
+		ResponseTypes: []string{"code"}, Service: true, RedirectURIs: []string{w.redirect}, AllowedScopes: []string{"custom:read"}}
 	sec := ""
 	switch c.AuthMethod {
 	case "client_secret_basic", "client_secret_post":
@@ -1002,7 +1047,8 @@ func run(c Case) (res *vkit.Result) {
 				http.Error(rw, "custom-error", http.StatusBadGateway)
 			}))
 	}
-	relying, err := rp.NewRelyingPartyOIDC(context.Background(), issuer, clientID, sec, w.redirect, c.Scopes, opts...)
+	// the RP gets its own slice: the harness keeps w.c.Scopes as the record of what was configured (never read back from the RP)
+	relying, err := rp.NewRelyingPartyOIDC(context.Background(), issuer, clientID, sec, w.redirect, append([]string(nil), c.Scopes...), opts...)
 	if err != nil {
 		res.Fail("C17:rp-construction-failed", "NewRelyingPartyOIDC against a truthful provider failed: %v", err)
 		return res
@@ -1018,6 +1064,8 @@ func run(c Case) (res *vkit.Result) {
 				w.login(i, c.Ops[i])
 			case "callback":
 				w.callback(i, c.Ops[i])
+			case "call":
+				w.call(i, c.Ops[i])
 			}
 		}
 	}
@@ -1037,6 +1085,7 @@ func run(c Case) (res *vkit.Result) {
 	if len(w.att) == 0 && c.Conc == nil {
 		res.Label("history:no-flow-started")
 	}
+	w.labelScopes()
 	elapsed := time.Since(t0)
 	res.Label("router:"+c.Router, fmt.Sprintf("pkce:%v", c.PKCE), fmt.Sprintf("jwt-profile:%v", c.JWTProfile), "client:"+c.AuthMethod)
 	res.Label("rp-keys:hash-len:"+lenClass(len(w.keysA.Hash)), fmt.Sprintf("rp-keys:enc-len:%d", len(w.keysA.Block)))
@@ -1162,6 +1211,61 @@ func (w *world) labelLoginRequest(o Op) {
 	w.classes = append(w.classes, "login:"+kind+"/"+strings.Join(owned, "+"))
 }
 
+// judgeAuthURL: every authorization URL the RP builds (redirect of rp.AuthURLHandler, result of rp.AuthURL) goes to the
+// provider's authorization endpoint and carries the CONFIGURED client, redirect URI and scopes (the harness's own record of
+// what it passed to the constructor) and the state handed in (one of issued).
+func (w *world) judgeAuthURL(who, loc string, issued []string) (u *url.URL, q url.Values, urlState string, ok bool) {
+	res := w.res
+	hist := ""
+	if len(w.calls) > 0 {
+		hist = "; earlier calls on this RelyingParty: " + strings.Join(w.calls, ", ")
+	}
+	u, err := url.Parse(loc)
+	if err != nil {
+		res.Fail("C17:authurl:unparsable", "%s: Location %q does not parse: %v", who, loc, err)
+		return nil, nil, "", false
+	}
+	q, qerr := url.ParseQuery(u.RawQuery)
+	if qerr != nil {
+		res.Fail("C17:authurl:unparsable", "%s: query of %q does not parse: %v", who, loc, qerr)
+		return nil, nil, "", false
+	}
+	one := func(k string) (string, bool) { return q.Get(k), len(q[k]) == 1 }
+	if u.Scheme+"://"+u.Host != issuer || u.Path != w.sut.Paths["authorization"] {
+		res.Fail("C17:authurl:endpoint", "%s: redirect goes to %q, not to the provider's authorization endpoint%s", who, loc, hist)
+	}
+	if v, ok := one("client_id"); !ok || v != clientID {
+		res.Fail("C17:authurl:client_id", "%s: authorization URL carries client_id %q, configured %q (%s)%s", who, q["client_id"], clientID, loc, hist)
+	}
+	if v, ok := one("redirect_uri"); !ok || v != w.redirect {
+		res.Fail("C17:authurl:redirect_uri", "%s: authorization URL carries redirect_uri %q, configured %q%s", who, q["redirect_uri"], w.redirect, hist)
+	}
+	if v, ok := one("scope"); !ok || !sameScopes(strings.Fields(v), w.c.Scopes) {
+		res.Fail("C17:authurl:scope", "%s: authorization URL carries scope %q, configured %q%s", who, q["scope"], w.c.Scopes, hist)
+	}
+	urlState, okState := one("state")
+	if !okState || !contains(issued, urlState) {
+		res.Fail("C17:authurl:state", "%s: authorization URL carries state %q, the application's state function returned %q%s", who, q["state"], issued, hist)
+	}
+	return u, q, urlState, true
+}
+
+// sameScopes: the same scope values on both sides (as sets: the order and a repetition carry no meaning in a scope parameter).
+func sameScopes(got, want []string) bool {
+	set := func(l []string) []string {
+		m := map[string]bool{}
+		var out []string
+		for _, s := range l {
+			if !m[s] {
+				m[s] = true
+				out = append(out, s)
+			}
+		}
+		return out
+	}
+	return sameSet(set(got), set(want))
+}
+
 // judgeLogin: the browser (jar j) receives the RP's answer to a login request; the oracle looks at the cookies and the
 // authorization URL, then the browser follows the redirect to the provider and logs in there.
 func (w *world) judgeLogin(i, idx int, a *attempt, issued []string, resp *vkit.Resp, j *jar) {
@@ -1192,33 +1296,11 @@ func (w *world) judgeLogin(i, idx int, a *attempt, issued []string, resp *vkit.R
 		return
 	}
 	res.Label("login:redirected")
-	u, err := url.Parse(resp.Location())
-	if err != nil {
-		res.Fail("C17:authurl:unparsable", "login %d: Location %q does not parse: %v", i, resp.Location(), err)
-		return
-	}
-	q, qerr := url.ParseQuery(u.RawQuery)
-	if qerr != nil {
-		res.Fail("C17:authurl:unparsable", "login %d: query of %q does not parse: %v", i, resp.Location(), qerr)
+	u, q, urlState, parsed := w.judgeAuthURL(fmt.Sprintf("login %d", i), resp.Location(), issued)
+	if !parsed {
 		return
 	}
 	one := func(k string) (string, bool) { return q.Get(k), len(q[k]) == 1 }
-	if u.Scheme+"://"+u.Host != issuer || u.Path != w.sut.Paths["authorization"] {
-		res.Fail("C17:authurl:endpoint", "login %d: redirect goes to %q, not to the provider's authorization endpoint", i, resp.Location())
-	}
-	if v, ok := one("client_id"); !ok || v != clientID {
-		res.Fail("C17:authurl:client_id", "login %d: authorization URL carries client_id %q, configured %q (%s)", i, q["client_id"], clientID, resp.Location())
-	}
-	if v, ok := one("redirect_uri"); !ok || v != w.redirect {
-		res.Fail("C17:authurl:redirect_uri", "login %d: authorization URL carries redirect_uri %q, configured %q", i, q["redirect_uri"], w.redirect)
-	}
-	if v, ok := one("scope"); !ok || !sameSet(strings.Fields(v), w.c.Scopes) {
-		res.Fail("C17:authurl:scope", "login %d: authorization URL carries scope %q, configured %q", i, q["scope"], w.c.Scopes)
-	}
-	urlState, okState := one("state")
-	if !okState || !contains(issued, urlState) {
-		res.Fail("C17:authurl:state", "login %d: authorization URL carries state %q, the application's state function returned %q", i, q["state"], issued)
-	}
 	// from here on the attempt's state is what the provider will echo to the redirect URI
 	state = urlState
 	a.state = urlState
@@ -1278,6 +1360,7 @@ func (w *world) judgeLogin(i, idx int, a *attempt, issued []string, resp *vkit.R
 	}
 	a.code = dp.Get("code")
 	a.ok = true
+	res.Label(stateCharClasses(state)...)
 	w.note("login#%d browser=%d state=%q verifier=%q", idx, a.browser, clip(state), a.verifier)
 }
 
@@ -1519,6 +1602,7 @@ func (w *world) callback(i int, o Op) {
 	// state parameter (except `inside`, which looks at the jar after the manipulations)
 	sendState := true
 	q := refState
+	nearKind := ""
 	switch o.StateQ {
 	case "omit":
 		sendState, q = false, ""
@@ -1542,6 +1626,8 @@ func (w *world) callback(i int, o Op) {
 		}
 	case "space":
 		q = refState + " "
+	case "near":
+		q, nearKind = nearMiss(refState, o.Near, o.NearN, o.NearCh)
 	}
 
 	var mutLabels []string
@@ -1658,6 +1744,9 @@ func (w *world) callback(i int, o Op) {
 		w.hits.callback++
 		w.hits.cbState = state
 		w.hits.cbTokens = tokens != nil && tokens.Token != nil && tokens.AccessToken != ""
+		if w.hits.cbTokens {
+			w.tokens = &heldTokens{access: tokens.AccessToken, refresh: tokens.RefreshToken, id: tokens.IDToken}
+		}
 		rw.WriteHeader(http.StatusOK)
 		io.WriteString(rw, "welcome")
 	}, w.rp, params...)
@@ -1814,13 +1903,20 @@ func (w *world) callback(i int, o Op) {
 	if o.StateQ != "attempt" {
 		res.Label("stateq:" + o.StateQ)
 	}
+	if nearKind != "" {
+		res.Label("near:" + nearKind)
+		if haveState && sOK && sDec == refState {
+			// the jar holds the genuine cookie of the attempt and the parameter misses it narrowly
+			res.Label("near-miss-of-genuine-cookie:" + map[bool]string{true: "equal(transform had no effect)", false: "differs"}[q == refState])
+		}
+	}
 	for _, l := range mutLabels {
 		if strings.HasSuffix(l, "noop") || l == "mint-excluded" {
 			l = "noop"
 		}
 		res.Label("mut:" + l)
 	}
-	w.classes = append(w.classes, class+"/"+strings.Join(mutLabels, "+")+"/"+o.StateQ+"/"+o.CodeQ)
+	w.classes = append(w.classes, class+"/"+strings.Join(mutLabels, "+")+"/"+o.StateQ+nearKind+"/"+o.CodeQ)
 	w.note("callback op %d: %s -> %s", i, class, outcome)
 }
 
@@ -1864,18 +1960,26 @@ func describeCookie(have, ok bool, dec, why string) string {
 var prop = vkit.Prop[Case]{
 	ID: "C17",
 	Rule: "cases = RP (rp.NewRelyingPartyOIDC, cookie handler keys A = generated hash key of 1-128 bytes (classes 1-15/16/17-31/32/33-63/64/65/66-128) and no / AES-128 / AES-192 / AES-256 encryption key, PKCE on/off, JWT-profile client authentication on/off, client registered as basic/post/none/private_key_jwt, " +
-		"oauth2 auth style auto/params/header, default or application handlers) against an in-process provider (both routers) x browser history of 1-4 (thorough 1-5) logins (rp.AuthURLHandler) in 1-2 cookie jars interleaved with " +
+		"oauth2 auth style auto/params/header, default or application handlers, " +
+		"SCOPES = openid first/last/in the middle/twice/absent + each of profile, email, phone, address, custom and urn scopes with p=1/3, offline_access with p=1/2, 1 in 10 with 4-12 further scopes, shuffled 1 in 3, an entry repeated 1 in 8; the RP gets its own slice, the oracle " +
+		"compares with the harness's record) against an in-process provider (both routers) x browser history of 1-4 (thorough 1-5) logins (rp.AuthURLHandler) in 1-2 cookie jars interleaved with " +
 		"[each login = a generated LOGIN REQUEST: plain GET (3 in 8), or GET with 1-6 query parameters, or POST with a form body (with or without query) - parameter names drawn from the parameters the statement binds (state, client_id, redirect_uri, scope, " +
 		"response_type, code_challenge, code_challenge_method), further OAuth/OIDC names (nonce, prompt, login_hint, ui_locales, request, code_verifier ...) and arbitrary names, values = competing values (other client, foreign redirect URI, wider scope, plain / S256 / junk " +
 		"challenge and method, earlier states) or free strings, one parameter in five repeats an earlier name; one login in five meets a jar manipulated beforehand (foreign / tampered / swapped cookies already present); the authorization URL is judged by the same " +
 		"oracle whatever the login request says] " +
+		"0-4 OTHER CALLS on the same RelyingParty instance at generated positions of the history, also before the first login (rp.ClientCredentials with/without endpoint params, rp.RefreshTokens, rp.Userinfo, rp.EndSession, rp.RevokeToken, rp.VerifyTokens with the tokens of the " +
+		"latest completed login or bogus ones, rp.DeviceAuthorization with the RP's / own / no scopes, rp.CodeExchange with a bogus or a genuine code, rp.AuthURL with prompt / code challenge / URL parameter options and a generated state (judged like a login's URL), the RP's getters); " +
+		"after every such call rp.AuthURL on that instance is judged (configured client, redirect URI, scopes, the state handed in) and so is every later login; " +
+		"application STATES: url-safe tokens, odd ASCII, segments joined by + space / - _ = % %20 %2B tab, standard / url-safe base64 of 1-24 random bytes, words with composed / decomposed / compatibility letters, 1-5 characters, 3000 bytes, repeats of earlier states; " +
 		"1-4 (thorough 1-6) callbacks (rp.CodeExchangeHandler), each callback = (jar manipulation list, query): matching, earlier attempt, other browser's attempt, restored earlier cookies, state omitted/empty/" +
-		"prefix/suffix/case/other, flipped/truncated/extended cookie, cookie minted (by a cookie handler of the library built with the other keys, or by the model codec) under the keys of another deployment = 3 generated foreign key pairs per case derived from A " +
+		"prefix/suffix/case/other, NEAR MISS of the state (one confusable step, 25 kinds: '+'<->' ', '-'<->'+', '_'<->'/', whole base64 alphabet, one letter's / every letter's case, padding added / stripped, " +
+		"percent-encoded once more / decoded once, path-escaped, leading / trailing space, newline, NUL, trimmed, other space characters, NFC<->NFD, zero-width insert, one character dropped / doubled / replaced / transposed, truncated; a kind " +
+		"without effect on the given state falls through to the next one that has; always delivered correctly URL-encoded), flipped/truncated/extended cookie, cookie minted (by a cookie handler of the library built with the other keys, or by the model codec) under the keys of another deployment = 3 generated foreign key pairs per case derived from A " +
 		"(hash key unrelated / equal / one byte or the whole tail differing at a generated position incl. 0,15,16,31,32,63,64,65,last / A continued by 1-16 bytes / A cut short; encryption key equal / unrelated / one byte differing / other AES size sharing the prefix / present on one side only; " +
 		"at least one key differs) or the fixed 32-byte keys B (hash, block or both), state and pkce cookie of the foreign flow together or alone, cookie under keys A for another name, cookies re-issued by a replica handler with byte-equal keys (must be accepted), " +
 		"swapped state/pkce cookies with the query set to the sealed value, dropped cookies, error= callbacks, GET/POST; one history in ten starts no flow at all (the jar holds only what others minted); " +
 		"excluded from the domain: cookies minted under keys A for the right name by anyone but the RP or its replica, handlers whose keys the library cannot use (empty hash key, AES key not 16/24/32 bytes), empty application state, duplicate state parameters / cookies; " +
-		"non-trivial = the history contains a callback that must be refused, or one that must succeed although it is not the browser's latest attempt, or several attempts in one jar; " +
+		"non-trivial = the history contains a callback that must be refused, or one that must succeed although it is not the browser's latest attempt, or several attempts in one jar, or another call on the RelyingParty followed by the authorization-URL oracle; " +
 		"distinct = (configuration, sequence of (model class, manipulations, state/code query kinds))",
 	Gen: genCase,
 	Run: run,
@@ -1883,6 +1987,10 @@ var prop = vkit.Prop[Case]{
 
 func TestRapid(t *testing.T)  { prop.Check(t) }
 func TestReplay(t *testing.T) { prop.Replay(t) }
+
+// matrixState: an application state with a character for every near-miss kind (standard base64 alphabet and padding, space,
+// url-safe alphabet, a pre-encoded octet, a letter with a decomposed form, a leading space).
+const matrixState = " St+two w/-_é%41=="
 
 // TestMatrix enumerates the complete configuration lattice with two fixed histories (plain matching flow; refused flow
 // + interleaved flow), so that every configuration the generator can draw is known to complete a genuine login.
@@ -1900,17 +2008,33 @@ func TestMatrix(t *testing.T) {
 					for _, enc := range []bool{true, false} {
 						for _, custom := range []bool{true, false} {
 							c := Case{Router: router, PKCE: pkce, JWTProfile: am == "private_key_jwt", AuthMethod: am, AuthStyle: style, Encrypt: enc,
-								Scopes: []string{"openid", "profile"}, RedirectPath: "/auth/callback", CustomHandlers: custom,
+								Scopes: []string{"openid", "profile", "offline_access", "email"}, RedirectPath: "/auth/callback", CustomHandlers: custom,
 								Ops: []Op{
+									{Kind: "call", Call: "getters"},
 									{Kind: "login", State: "st-one"},
-									{Kind: "login", State: "st-two"},
+									{Kind: "login", State: matrixState},
 									{Kind: "callback", Tmpl: "earlier", Attempt: 0, StateQ: "attempt", CodeQ: "attempt", Method: "GET"},
 									{Kind: "callback", Tmpl: "wrongq", Attempt: 1, StateQ: "omit", CodeQ: "attempt", Method: "GET"},
 									{Kind: "callback", Tmpl: "match", Attempt: 1, StateQ: "attempt", CodeQ: "attempt", Method: "GET"},
 									{Kind: "callback", Tmpl: "match", Attempt: 1, StateQ: "attempt", CodeQ: "attempt", Method: "GET"},
 									{Kind: "callback", Tmpl: "restore", Attempt: 0, StateQ: "attempt", CodeQ: "attempt", Method: "POST",
 										Muts: []Mut{{Kind: "restore", Cookie: "state", N: 0}, {Kind: "restore", Cookie: "pkce", N: 0}}},
+									// every other use of the RelyingParty once, with what the completed login left the application
+									// holding; each is followed by the authorization-URL oracle, and a last login goes through the handler
+									{Kind: "call", Call: "userinfo"}, {Kind: "call", Call: "verify_tokens"}, {Kind: "call", Call: "refresh"},
+									{Kind: "call", Call: "client_credentials"}, {Kind: "call", Call: "device_authorization", Arg: "config-scopes"},
+									{Kind: "call", Call: "code_exchange", Arg: "bogus"}, {Kind: "call", Call: "auth_url", Arg: "all", State: "direct +state"},
+									{Kind: "call", Call: "revoke", Arg: "refresh"}, {Kind: "call", Call: "end_session"},
+									{Kind: "login", State: "st-three"},
+									{Kind: "callback", Tmpl: "match", Attempt: 2, StateQ: "attempt", CodeQ: "attempt", Method: "GET"},
 								}}
+							// every near-miss kind of the state parameter against the genuine cookies of attempt 1 (all refused: the
+							// cookies stay in the jar for the matching callback that follows)
+							var near []Op
+							for _, k := range nearKinds {
+								near = append(near, Op{Kind: "callback", Tmpl: "near", Attempt: 1, StateQ: "near", Near: k, NearN: 1, NearCh: "x", CodeQ: "attempt", Method: "GET"})
+							}
+							c.Ops = append(c.Ops[:5:5], append(near, c.Ops[5:]...)...)
 							res := run(c)
 							rec.Record(c, res)
 							n++
@@ -1926,8 +2050,14 @@ func TestMatrix(t *testing.T) {
 									got[l]++
 								}
 							}
-							if got["cb:must-reject:state-differs"] < 1 || got["cb:must-reject:state-param-absent"] < 1 || got["cb:must-accept"] < 1 {
+							if got["cb:must-reject:state-differs"] < 1+len(nearKinds) || got["cb:must-reject:state-param-absent"] < 1 || got["cb:must-accept"] < 2 {
 								t.Fatalf("matrix cell %+v: harness self-check: classes %v info=%v", c, got, res.Info)
+							}
+							for _, k := range nearKinds {
+								// matrixState holds a character for every kind: each transformation takes effect as itself
+								if !contains(res.Labels, "near:"+k) {
+									t.Fatalf("matrix cell %+v: harness self-check: near-miss kind %s did not take effect on %q (labels %v)", c, k, matrixState, res.Labels)
+								}
 							}
 						}
 					}
